@@ -25,6 +25,7 @@ from vplib import cb, clist, cN
 from checks import relay_common as rc
 from checks.relay_common import CLAIMS, DATE, AUTH, SCHEME
 from checks import c01 as C01
+from checks import c04 as C04
 from checks import c05 as C05
 from checks import c14 as C14
 
@@ -234,6 +235,32 @@ def py_expect(case, rq):
     return why is None, why, denied
 
 
+C04_APPLIED = [0]
+
+
+def prop_c04(c5, up):
+    """C04's text on what the host received, with C04's own independent string-to-sign (c04.spec_string_to_sign): a latched hex key on
+    a pair that is not exempt => the MAC of the one authorization header is over every header and parameter as received.  Requests
+    inside C04's recorded known-finding classes (F3a/b/c) are left to C04's check."""
+    key = c5["key"]
+    if not (key and c5["key_is_hex"]) or rc.is_exempt(c5["method"], c5["target"]):
+        return None
+    auth_name = AUTH.encode()
+    hs = [(k.encode("latin-1"), (v or "").encode("latin-1")) for k, v in up["headers"]]
+    path, query = rc.split_target(up["target"])
+    query = None if query is None else query.encode("latin-1")
+    if C04.classes_of(auth_name, C04.spec_query_pairs(query), hs):
+        return None
+    C04_APPLIED[0] += 1
+    spec = C04.spec_string_to_sign(auth_name, up["method"].encode("latin-1"), up["body"], hs, path.encode("latin-1"), query)
+    want = "%s %s %s" % (SCHEME, key["guid"], hmac.new(bytes.fromhex(key["key"]), spec, hashlib.sha256).hexdigest())
+    got = [v for k, v in rc.hdr_list(up) if k == AUTH]
+    if got != [want]:
+        return ("signed request: the MAC of the authorization header %r is not HMAC-SHA256 under the latched key over the request as "
+                "the host received it (C04)" % got)
+    return None
+
+
 def hdr_groups(headers, skip):
     return C14.grouped(headers, skip)[0]
 
@@ -292,6 +319,7 @@ def run_leg(ctx):
     """-> (disagreements, prop_failures, stats); appended to C01's own lists before its verdict"""
     rng = ctx.rng
     now_t = time.time()
+    C04_APPLIED[0] = 0
     hexe = C01.helper_exe()
     users = ["root", "nobody", "undefined", "someone"]
     groups = sorted(set(C01.os_user(0)[1] + C01.os_user(e2e.NOBODY_UID)[1] + ["wheel"]))
@@ -456,7 +484,8 @@ def run_leg(ctx):
                        "chunks": rq["chunks"], "headers": rq["headers"], "status": rq["status"], "rbody": rq["rbody"],
                        "rheaders": [(a, b.encode("utf-8").decode("latin-1")) for a, b in rq["rheaders"]]}
                 why = (("relayed to %s, not to the recorded destination %s" % (host, dest)) if host != dest else None) or \
-                    C05.prop_c05(c5, rc.hdr_list(up), now_t) or (lambda w: w and "request leg: " + w)(C14.prop_request(x14, up))
+                    C05.prop_c05(c5, rc.hdr_list(up), now_t) or (lambda w: w and "request leg: " + w)(C14.prop_request(x14, up)) or \
+                    prop_c04(c5, up)
                 if why is None and ob["complete"]:
                     resp = e2e.parse_http(ob["raw"])
                     if resp is not None and resp["header"]("x-reply-tag"):
@@ -489,7 +518,13 @@ def run_leg(ctx):
                         disagreements.append({"case": brief, "model": {"summary": [c["user"], want_ip, case["record"]["dest_port"]]},
                                               "impl": {"summary": [s["userName"], s["ip"], s["port"]]}})
                         break
+    if not ctx.quick and vplib.os.environ.get("VERIF_SKIP_COQCHK") != "1":
+        okc, outc = vplib.coqchk(ctx, "System")          # independent re-check of the composed development (thorough tier only)
+        stats["coqchk"] = {"ok": okc, "tail": outc[-300:]}
+        if not okc:
+            disagreements.append({"case": {"leg": "system"}, "model": "coqchk GPA.Props.System", "impl": outc[-800:]})
     stats["classes"] = dict(sorted(stats["classes"].items(), key=lambda kv: -kv[1])[:20])
+    stats["signed_requests_verified_with_c04_spec_string"] = C04_APPLIED[0]
     stats["agree"] = max(0, (len(model) if have_model else 0) - len(disagreements))
     return disagreements, failures, stats
 
